@@ -1005,6 +1005,11 @@ func (tr *trans) run() {
 		case "let":
 			env.lets[it.Name] = it.E
 		case "requires", "assume":
+			if it.Kind == "requires" && tr.fc.Opts["total_post"] == "true" && tr.fc.Opts["pre_only_if"] != "" {
+				// opt total_post: the postcondition is claimed for every call that returns, so the opt-in
+				// preconditions (which only rule out a deliberate panic) are not assumed for the body
+				continue
+			}
 			tr.vc.assume(env.elabBool(it.E))
 		}
 	}
